@@ -904,6 +904,23 @@ func (s *Sim) build(a *Action, bs *BState) world.Req {
 			}
 		}
 	}
+	if how := a.opt("breakjson"); how != "" && s.Cfg.JSON && rq.Method != "GET" && rq.Raw == nil {
+		// an API client whose JSON document is ill-typed or ill-formed AFTER the genuine fields: a boolean
+		// where the library expects a string, a trailing comma
+		b, _ := json.Marshal(f)
+		doc := strings.TrimSuffix(string(b), "}")
+		switch how {
+		case "bool":
+			doc += `,"rm":true}`
+		case "number":
+			doc += `,"remember":1}`
+		default:
+			doc += `,}`
+		}
+		rq.Raw = &doc
+		rq.CT = "application/json"
+		a.Resolved = "malformed-json"
+	}
 	return rq
 }
 
